@@ -116,6 +116,13 @@ def analyze(run: Any) -> dict[str, list[str]]:  # noqa: C901
                 # of (virtual) time may pass while the task stays blocked
                 if cycle - b["cancelled_since"] > LATENCY or now > b["cancelled_time"]:
                     b["flagged"] = True
+                    grp = m.tasks.get(T, {}).get("group")
+                    if grp is not None and any(
+                            (m.tasks[u].get("finish") or "-") != "-" and not all(
+                                is_cancel_code(x) for x in code_leaves(m.tasks[u]["finish"]))
+                            for u in m.groups[grp]["children"] if u in m.tasks):
+                        V["C02"].append(f"task {T} of group {grp} is not cancelled although a sibling has "
+                                        f"failed (still blocked in {b['kind']})")
                     V["C03"].append(f"task {T} still blocked in {b['kind']} {cycle - b['cancelled_since']} cycles / "
                                     f"{now - b['cancelled_time']} time units after its scope became "
                                     f"effectively cancelled")
